@@ -581,6 +581,27 @@ pub fn run_image(c: &ImageCase, info: &mut CaseInfo) -> Result<(), Fail> {
         info.label("heavy_tail_centroid");
     }
     info.nontrivial = st.centroids >= 3 && st.heavy_tail;
+    // The digest read from a foreign image is a live digest: values inside [min, max] and a merge with a second
+    // copy leave the extremes where they are (a heavy end centroid's mean is not an extreme).
+    let what = format!("{enc:?} image, {} centroids, first weight {}, last weight {}", im.centroids.len(), im.centroids[0].1, im.centroids.last().unwrap().1);
+    let mut more = 0u64;
+    let mut sm = SplitMix(c.qseed ^ 0x1f);
+    let inner = [im.centroids[0].0, im.centroids.last().unwrap().0, im.min / 2.0 + im.max / 2.0];
+    for i in 0..(1 + sm.below(5)) {
+        let v = inner[(i % 3) as usize];
+        if v.is_finite() && v >= im.min && v <= im.max {
+            td.update(v);
+            more += 1;
+        }
+    }
+    let known2 = Known { total: total + more, min: im.min, max: im.max };
+    battery(&mut td, &known2, 60, c.qseed ^ 1, &format!("{what}, then {more} updates inside [min, max]"))?;
+    if total + more < (1 << 40) {
+        let mut other = TDigestMut::deserialize(&bytes, enc == spec::Enc::Float).map_err(|e| Fail { clause: "C10.valid_image_rejected".into(), detail: format!("{e}") })?;
+        other.merge(&td);
+        let known3 = Known { total: 2 * total + more, min: im.min, max: im.max };
+        battery(&mut other, &known3, 60, c.qseed ^ 2, &format!("{what}, merged with an updated copy of itself"))?;
+    }
     Ok(())
 }
 
